@@ -222,6 +222,7 @@ func ConnectTCP(
 	}
 
 	if err := connect(fd, remoteAddr, timeout, opts...); err != nil {
+		_ = syscall.Close(fd)
 		return -1, nil, nil, err
 	}
 
@@ -240,6 +241,7 @@ func ConnectUDP(
 	}
 
 	if err := connect(fd, remoteAddr, timeout, opts...); err != nil {
+		_ = syscall.Close(fd)
 		return -1, nil, nil, err
 	}
 
